@@ -1610,6 +1610,40 @@ Lemma known_hosts_shown : forall lib hosts blob comment k,
                /\ rest = ssh_public_attrs true k comment.
 Proof. intros lib hosts blob comment k H. eexists. unfold ssh_known_hosts_one. rewrite H. split; reflexivity. Qed.
 
+(* a known_hosts file lists, in order, exactly the entry each of its lines has when it is the only line *)
+Lemma known_hosts_file_each_line : forall fixed ls i,
+  ssh_known_hosts_file fixed ls = Ok i ->
+  i_desc i = bs "SSH known_hosts" /\ i_attrs i = [] /\
+  exists is, Forall2 (fun ol one => ssh_known_hosts_one fixed (fst ol) (snd ol) = Ok one) ls is /\
+             i_children i = flat_map i_children is.
+Proof.
+  intros fixed ls i. unfold ssh_known_hosts_file.
+  destruct (ssh_known_hosts_lines fixed ls) as [cs|e|s] eqn:E; try discriminate.
+  intros H. injection H as <-. cbn [i_desc i_attrs i_children]. split; [reflexivity|]. split; [reflexivity|].
+  revert cs E. induction ls as [|[o l] r IH]; intros cs E.
+  - cbn in E. injection E as <-. exists []. split; [constructor|reflexivity].
+  - cbn [ssh_known_hosts_lines] in E.
+    destruct (ssh_known_hosts_one fixed o l) as [one|e|s] eqn:E1; try discriminate.
+    destruct (ssh_known_hosts_lines fixed r) as [cs'|e|s] eqn:E2; try discriminate.
+    injection E as <-. destruct (IH cs' eq_refl) as [is [F C]].
+    exists (one :: is). split; [constructor; [exact E1|exact F]|]. cbn [flat_map]. rewrite C. reflexivity.
+Qed.
+
+Lemma known_hosts_file_error : forall fixed ls,
+  (exists i, ssh_known_hosts_file fixed ls = Ok i) <->
+  Forall (fun ol => exists one, ssh_known_hosts_one fixed (fst ol) (snd ol) = Ok one) ls.
+Proof.
+  intros fixed ls. unfold ssh_known_hosts_file. induction ls as [|[o l] r IH].
+  - cbn. split; [constructor|eauto].
+  - cbn [ssh_known_hosts_lines]. split.
+    + intros [i H]. destruct (ssh_known_hosts_one fixed o l) as [one|e|s] eqn:E1; try discriminate.
+      destruct (ssh_known_hosts_lines fixed r) as [cs'|e|s] eqn:E2; try discriminate.
+      constructor; [exists one; exact E1|]. apply IH. eauto.
+    + intros F. inversion F as [|x xs [one H1] F']; subst. cbn [fst snd] in H1. rewrite H1.
+      apply IH in F'. destruct F' as [i Hi].
+      destruct (ssh_known_hosts_lines fixed r) as [cs'|e|s]; try discriminate. eauto.
+Qed.
+
 (* ---------- the private half never reaches the description ---------- *)
 
 Definition same_public_meta (m m' : meta) : Prop :=
